@@ -293,6 +293,66 @@ func c16Scanners(c *Ctx) {
 			ref = s.max
 		}
 	}
+	// the writer never appends a line the readers cannot scan: send refuses an encoded message of more than ref-1 bytes
+	// (bufio.Scanner needs the line and its newline inside a buffer of at most ref bytes)
+	if sf := c.Fn("C16/R3", pkgFS, "FileStorage", "send"); sf != nil {
+		var writes []ssa.Instruction
+		for _, call := range ssax.Calls(sf, false, func(ci ssa.CallInstruction) bool {
+			id := ssax.FuncID(ssax.CalleeObj(ci))
+			return id == "fmt.Fprintln" || id == "fmt.Fprintf" || id == "fmt.Fprint" || strings.HasSuffix(id, "os.(File).Write") || strings.HasSuffix(id, "os.(File).WriteString")
+		}) {
+			writes = append(writes, call.(ssa.Instruction))
+		}
+		okBound, detail := false, "no test of the encoded message's length against the line limit"
+		for _, cd := range ssax.Conds(sf) {
+			// len(data) [+ c] OP K
+			x := ssax.Resolve(cd.X)
+			add := int64(0)
+			if bo, isBo := x.(*ssa.BinOp); isBo && bo.Op == token.ADD {
+				if k, isK := ssax.ConstInt(bo.Y); isK {
+					add, x = k, ssax.Resolve(bo.X)
+				} else if k, isK := ssax.ConstInt(bo.X); isK {
+					add, x = k, ssax.Resolve(bo.Y)
+				}
+			}
+			la := lenArg(x)
+			if la == nil || !strings.Contains(npath(la), "json.Marshal(") {
+				continue
+			}
+			k, isK := ssax.ConstInt(cd.Y)
+			if !isK {
+				continue
+			}
+			// the largest length that passes, and the edge on which it passes
+			var maxOK int64
+			var pass ssax.Edge
+			switch cd.Op {
+			case token.GTR: // len+add > k refuses
+				maxOK, pass = k-add, ssax.Edge{From: cd.If.Block(), Succ: 1}
+			case token.GEQ:
+				maxOK, pass = k-add-1, ssax.Edge{From: cd.If.Block(), Succ: 1}
+			case token.LEQ: // len+add <= k passes
+				maxOK, pass = k-add, ssax.Edge{From: cd.If.Block(), Succ: 0}
+			case token.LSS:
+				maxOK, pass = k-add-1, ssax.Edge{From: cd.If.Block(), Succ: 0}
+			default:
+				continue
+			}
+			guarded := len(writes) > 0
+			for _, w := range writes {
+				if ssax.ReachableAvoiding(sf, w, []ssax.Edge{pass}, nil) {
+					guarded = false
+				}
+			}
+			if guarded && maxOK+1 <= ref {
+				okBound = true
+			} else {
+				detail = sprintf("the test lets lines of up to %d bytes (plus newline) through while the scanners stop at %d, or does not guard the write", maxOK, ref)
+			}
+		}
+		r.Check(okBound, "C16/R3", "file_storage.send:refuses-oversize", "send refuses a message whose encoded line the readers could not scan", c.Pos(sf.Pos()),
+			detail+": one accepted oversize message makes GetMessages fail for every reader forever and every later message gets a repeated offset")
+	}
 	for _, s := range scs {
 		r.Check(s.max == ref && s.max > 0, "C16/R3", "file_storage."+s.fn.Name()+":scanner-limit", "scanner line limit equals the largest limit used on the data file", c.PosOf(s.new),
 			sprintf("this scanner stops at lines longer than %d bytes while another accepts %d: after a longer line the counter returns a stale count and every later message gets a repeated offset", s.max, ref))
